@@ -218,6 +218,27 @@ class Plugin:
     def leftover(self):
         return len(self.out.split(b"\n\n")[-1])
 
+    def storm(self, reqs, marker, timeout):
+        """send many requests as fast as the pipe takes them (writer thread) while reading the output; returns once the
+        marker (the constant prefix of their ids as it appears in a reply) was seen len(reqs) times or after `timeout`"""
+        data = b"".join((json.dumps(q) + "\n\n").encode() for q in reqs)
+        th = threading.Thread(target=self.send_raw, args=(data,), daemon=True)
+        th.start()
+        end = time.time() + timeout
+        seen = 0; tail = b""
+        while time.time() < end and seen < len(reqs):
+            r, _, _ = select.select([self.p.stdout], [], [], 0.05)
+            if r:
+                d = os.read(self.p.stdout.fileno(), 1 << 20)
+                if not d:
+                    break
+                self.out += d
+                blk = tail + d
+                seen += blk.count(marker)
+                tail = blk[-(len(marker) - 1):] if len(marker) > 1 else b""
+                # (a marker cut in two by a read is counted with the next block; one wholly inside `tail` cannot exist)
+        return self.frames()
+
     def handshake(self, timeout=5.0):
         """returns "ok" | "refused" (process exited / no init reply)"""
         self.send({"jsonrpc": "2.0", "id": "gm", "method": "getmanifest", "params": {"allow-deprecated-apis": False}})
@@ -715,6 +736,8 @@ def lostreply_check(seed, tier, wd):
     return {"runs": len(recs), "violations": viol}
 
 
+STORM = {"quick": 1500, "thorough": 8000}
+
 def burst_check(seed, tier, wd):
     """C06 on the real binary: a payment of many parts; every htlc_accepted call of the set is answered exactly once
     (resolve() answers the whole set in the same instant, the driver has to get every reply out)."""
@@ -743,6 +766,15 @@ def burst_check(seed, tier, wd):
                 ids.append(rid)
                 pl.send(patched(T["ok"], rid, k + 1, amt, need, 1000 + 34 + 1008 + 500, 70000))
             fr = pl.read_frames(lambda f: sum(1 for ok, o in f if ok and o.get("id") in ids) >= len(ids), 20.0)
+            if runno % 2 == 0:
+                # with trace logging on: a storm of HTLCs that are not for the plugin (answered at once, each handler
+                # enters and closes its spans), as fast as the plugin reads them: the runtime's workers are inside the
+                # handler and the logging layer at the same time
+                K = STORM[tier] * (runno // 2)
+                sids = ["s%d" % k for k in range(K)]
+                ids += sids
+                fr = pl.storm([htlc_request(rid, "0209" + "00" * 9, htlc_id=5000 + k) for k, rid in enumerate(sids)], b'"id":"s', 30.0 + K / 200.0)
+                fr = pl.read_frames(lambda f: sum(1 for ok, o in f if ok and o.get("id") in set(ids)) >= len(ids), 10.0)
             recs.append({"ev": "e2e", "run": runno, "sent": [json.dumps(i) for i in ids], "leftover": pl.leftover(),
                          "frames": [{"json": ok, "id": json.dumps(o.get("id")) if ok and "id" in o else "none",
                                      "kind": ("result" if ok and "result" in o else "error" if ok and "error" in o else "notification" if ok and "method" in o else "garbage"),
